@@ -324,7 +324,7 @@ class Raised(Exception):
         self.lineno = lineno
 
 
-_PURE_STR_METHODS = {n_ for n_ in dir(str) if not n_.startswith('_')} - {'format', 'format_map', 'join', 'encode', 'maketrans', 'translate'}
+_PURE_STR_METHODS = ({n_ for n_ in dir(str) if not n_.startswith('_')} | {'decode', 'hex'}) - {'format', 'format_map', 'join', 'maketrans', 'translate'}
 
 
 class _NotPlain(Exception):
@@ -809,6 +809,40 @@ class Interp:
                     fr.vars.pop(t.id, None)
                 else:
                     raise Undecided('del target %s (line %d)' % (type(t).__name__, st.lineno))
+        elif isinstance(st, ast.With):
+            entered = []
+            for item in st.items:
+                mgr = self.eval(item.context_expr, fr)
+                if isinstance(mgr, ObjV) and self.find_method(mgr.cls, '__enter__') is not None:
+                    val = self.call_method(mgr, '__enter__', [], {}, st)
+                elif isinstance(mgr, (Sym, Prim, OpaqueV)) and any(w_ in _prov(mgr) for w_ in ('Lock', 'lock', 'catch_warnings')):
+                    val = mgr      # a lock / warnings filter of the standard library: no effect on the values computed
+                else:
+                    raise Undecided('context manager %s (line %d)' % (_prov(mgr), st.lineno))
+                entered.append(mgr)
+                if item.optional_vars is not None:
+                    self.assign(item.optional_vars, val, fr)
+            try:
+                self.exec_block(st.body, fr)
+            except Raised as exc_:
+                swallowed = False
+                for mgr in reversed(entered):
+                    if isinstance(mgr, ObjV):
+                        r_ = self.call_method(mgr, '__exit__', [Sym('exc_type'), ExcV(exc_.what), Sym('traceback')], {}, st)
+                        if self.truth(r_, st):
+                            swallowed = True
+                            break
+                if not swallowed:
+                    raise
+            except (_Return, _Break, _Continue):
+                for mgr in reversed(entered):
+                    if isinstance(mgr, ObjV):
+                        self.call_method(mgr, '__exit__', [NONE, NONE, NONE], {}, st)
+                raise
+            else:
+                for mgr in reversed(entered):
+                    if isinstance(mgr, ObjV):
+                        self.call_method(mgr, '__exit__', [NONE, NONE, NONE], {}, st)
         elif isinstance(st, ast.Global):
             fr.globals_declared = getattr(fr, 'globals_declared', set()) | set(st.names)
         elif isinstance(st, (ast.Import, ast.ImportFrom)):
@@ -975,6 +1009,16 @@ class Interp:
             alt = self._class_level_method(obj, attr)
             if alt is not None:
                 return alt
+            for m_ in self.repo.modules.values():
+                ci_ = m_.classes.get(obj.name)
+                if ci_ is not None:
+                    try:
+                        ca_ = self._class_attr(ci_, attr)
+                    except Undecided:
+                        ca_ = None
+                    if ca_ is not None and ca_[0] == 'value':
+                        return ca_[1]
+                    break
             return Sym('%s.%s' % (obj.name, attr))
         if isinstance(obj, CtxV):
             if attr == 'multiline_strategy':
@@ -1316,6 +1360,14 @@ class Interp:
                 return {ast.Lt: l.v < r.v, ast.LtE: l.v <= r.v, ast.Gt: l.v > r.v, ast.GtE: l.v >= r.v}[op]
             except Exception:
                 raise Undecided('constant comparison failed')
+        if isinstance(l, (TupleV, ListV)) and type(l) is type(r) and op in (ast.Lt, ast.LtE, ast.Gt, ast.GtE):
+            try:
+                pl_, pr_ = _plain(l), _plain(r)
+                return {ast.Lt: pl_ < pr_, ast.LtE: pl_ <= pr_, ast.Gt: pl_ > pr_, ast.GtE: pl_ >= pr_}[op]
+            except _NotPlain:
+                pass
+            except TypeError as e:
+                raise Raised('TypeError: %s' % e, getattr(n, 'lineno', 0))
         if isinstance(l, SetV) and isinstance(r, SetV) and op in (ast.LtE, ast.GtE):
             a, b = (l, r) if op is ast.LtE else (r, l)
             return all(any(self._known_eq(x, y) is True for y in b.items) for x in a.items)
@@ -1514,6 +1566,10 @@ class Interp:
                 if isinstance(val, Const) and isinstance(val.v, (str, int)) and v.conversion == -1 and v.format_spec is None:
                     parts.append(str(val.v))
                     nonempty = nonempty or bool(str(val.v))
+                elif getattr(self, 'concrete_context', False) and self._fstring_piece(v, val, fr) is not None:
+                    piece_ = self._fstring_piece(v, val, fr)
+                    parts.append(piece_)
+                    nonempty = nonempty or bool(piece_)
                 else:
                     all_const = False
                     conv = {114: '!r', 115: '!s', 97: '!a'}.get(v.conversion, '')
@@ -1521,6 +1577,30 @@ class Interp:
         if all_const:
             return Const(''.join(parts))
         return SymStr('format(%r;%s)' % ('', ''.join(parts)), nonempty=True if nonempty else None)
+
+    def _fstring_piece(self, v, val, fr):
+        """the text of one replacement field of an f-string whose value is made of constants (conversion and format spec applied by
+        Python's own format machinery), or None"""
+        try:
+            pv = _plain(val)
+        except _NotPlain:
+            return None
+        spec = ''
+        if v.format_spec is not None:
+            sp = self.e_JoinedStr(v.format_spec, fr)
+            if not isinstance(sp, Const):
+                return None
+            spec = sp.v
+        try:
+            if v.conversion == 114:
+                pv = repr(pv)
+            elif v.conversion == 115:
+                pv = str(pv)
+            elif v.conversion == 97:
+                pv = ascii(pv)
+            return format(pv, spec)
+        except Exception:
+            return None
 
     def e_Starred(self, n, fr):
         raise Undecided('bare starred expression')
@@ -2035,6 +2115,8 @@ class Interp:
             if r is not NotImplemented:
                 return r
         h = getattr(self, 'p_' + name, None)
+        if h is None and name in ('OrderedDict', 'dict', 'list', 'tuple', 'set', 'frozenset', 'str', 'int', 'float', 'bool') and getattr(self, 'concrete_context', False):
+            return self.construct(TypeV(name), list(args), dict(kwargs), node)
         if h is None and name.endswith(('.__repr__', '.__str__')) and getattr(self, 'concrete_context', False) and len(args) == 1 \
                 and isinstance(args[0], Const) and isinstance(args[0].v, (str, bytes, int, float, bool)):
             import builtins as _b
@@ -2459,6 +2541,8 @@ class Interp:
 
     def p_abs(self, a, k, n):
         v = a[0]
+        if isinstance(v, Const) and isinstance(v.v, (int, float)):
+            return Const(abs(v.v))
         if isinstance(v, ValueV):
             return ValueV('abs(%s)' % v.prov, v.type, v.elems, v.extra)
         return Sym('abs(%s)' % _prov(v))
